@@ -44,3 +44,31 @@ theorem convat_spec [AddLaws S] (img flt : Tensor S) (sr sc : Nat) (i : List Nat
   · cases hv
 
 end Corgi
+
+namespace Corgi
+variable {S : Type} [Add S] [Mul S] [Neg S] [Sub S] [ScalarOps S] [BEq S]
+
+/-- **`matmulat` = indexing `matmul`** (operands of rank ≥ 2, no additive term or a bias row) -/
+theorem matmulat_spec (a b : Tensor S) (ta tb : Bool) (c : Option (Tensor S)) (i : List Nat)
+    (hv : matmulValidB a ta b tb c = true) (hi : inRange (matmulOutDims a ta b tb) i = true) :
+    ∃ t, matmul a ta b tb c = .ok t ∧ t.index i = .ok (matmulElem a ta b tb c i) := by
+  unfold matmulValidB at hv
+  split at hv
+  · rename_i la a1 a2 lb b1 b2 ha hb
+    simp only [Bool.and_eq_true, beq_iff_eq] at hv
+    obtain ⟨⟨⟨⟨h1, h2⟩, h3⟩, h4⟩, h5⟩ := hv
+    have hda := split2_sound ha
+    have hdb := split2_sound hb
+    have hne : matmulOutDims a ta b tb ≠ [] := by simp [matmulOutDims]
+    cases c with
+    | none =>
+      refine ⟨_, matmul_spec_none a b ta tb la lb a1 a2 b1 b2 hda hdb (wfB_sound h1) (wfB_sound h2) h3 h4, ?_⟩
+      exact ofFn_index (matmulOutDims a ta b tb) _ i hne hi
+    | some c =>
+      simp only [Bool.and_eq_true, beq_iff_eq] at h5
+      refine ⟨_, matmul_spec_bias a b c ta tb la lb a1 a2 b1 b2 hda hdb (wfB_sound h1) (wfB_sound h2) h3 h4 h5.1
+        (wfB_sound h5.2), ?_⟩
+      exact ofFn_index (matmulOutDims a ta b tb) _ i hne hi
+  · cases hv
+
+end Corgi
